@@ -10,9 +10,10 @@ between the two is by inspection only (partial clause of C18).
 -/
 import Mathlib.Analysis.SpecialFunctions.Trigonometric.Basic
 import Mathlib.Analysis.SpecialFunctions.Sqrt
+import Mathlib.Algebra.BigOperators.Group.Finset.Basic
 
 namespace FDA.BasesReal
-open Real
+open Real Finset
 
 /-- `_basis_wiener` row `k − 1`: `√2·sin((k − ½)πt)`, `k ≥ 1`. -/
 noncomputable def wiener (k : ℕ) (t : ℝ) : ℝ := √2 * sin (((k : ℝ) - 1 / 2) * π * t)
@@ -25,5 +26,10 @@ noncomputable def fourier (a b : ℝ) (k : ℕ) (t : ℝ) : ℝ :=
   if k = 0 then 1 / √(b - a)
   else if k % 2 = 1 then √(2 / (b - a)) * cos ((((k + 1) / 2 : ℕ) : ℝ) * fourierAngle a b t)
   else √(2 / (b - a)) * sin ((((k + 1) / 2 : ℕ) : ℝ) * fourierAngle a b t)
+
+/-- Trapezoid rule on the uniform grid `t_i = a + i·(b−a)/N`, `i = 0..N` (what `np.trapz` computes
+there, over `ℝ`). -/
+noncomputable def trapzU (a b : ℝ) (N : ℕ) (f : ℝ → ℝ) : ℝ :=
+  ∑ i ∈ range N, ((b - a) / N) * ((f (a + (i : ℝ) * ((b - a) / N)) + f (a + ((i : ℝ) + 1) * ((b - a) / N))) / 2)
 
 end FDA.BasesReal
